@@ -583,7 +583,7 @@ theorem rowsToTree_ok (sep : Str) (dupOk : Bool) (rows : List Row) (t : Tree)
     (h : rowsToTree sep dupOk rows = .ok t) :
     ∃ (p0 : Str) (a0 : Attrs) (rest : List Row) (ra : Attrs) (fr : Nat),
       rows.map (fun r => (strip sep r.1, r.2)) = (p0, a0) :: rest ∧ (split sep p0).headD [] ≠ [] ∧
-      addMany "/".toList sep dupOk ((rows.map fun r => (strip sep r.1, r.2)).map fun r => (r.1, filterRow r.2))
+      addMany sep sep dupOk ((rows.map fun r => (strip sep r.1, r.2)).map fun r => (r.1, filterRow r.2))
         (.node 0 ((split sep p0).headD []) ra []) 1 = .ok (t, fr) := by
   unfold rowsToTree at h
   simp only at h
@@ -605,10 +605,9 @@ theorem rowsToTree_ok (sep : Str) (dupOk : Bool) (rows : List Row) (t : Tree)
           subst h
           exact ⟨p0, a0, rest, _, fr, rfl, hne, heq⟩
 
-/-- `dataframe_to_tree` / `polars_to_tree` on well-formed paths. The loop runs under the default
-    separator `/`, so with duplicates disallowed the names must not contain `/` either. -/
-theorem rowsToTree_spec (c : Char) (dupOk : Bool) (items : List Item) (hwf : ∀ it ∈ items, it.Wf c)
-    (hslash : dupOk = false → ∀ it ∈ items, ∀ x ∈ it.branch, '/' ∉ x) (t : Tree)
+/-- `dataframe_to_tree` / `polars_to_tree` on well-formed paths (since repair D11 the loop runs under the separator
+    given, so no extra condition on `/` is needed). -/
+theorem rowsToTree_spec (c : Char) (dupOk : Bool) (items : List Item) (hwf : ∀ it ∈ items, it.Wf c) (t : Tree)
     (h : rowsToTree [c] dupOk (items.map fun it => (it.render c, it.attrs)) = .ok t) :
     SibUnique t ∧ (firstSeen (items.map (·.branch))).Nodup ∧
     (∀ q, q ∈ paths t ↔ q ∈ firstSeen (items.map (·.branch))) ∧
@@ -652,13 +651,13 @@ theorem rowsToTree_spec (c : Char) (dupOk : Bool) (items : List Item) (hwf : ∀
       exact ⟨w1, by simp, by simp, w4⟩
     have hbr : items'.map (·.branch) = (it0 :: items).map (·.branch) := by
       simp [items', List.map_map, Function.comp_def]
-    obtain ⟨v1, v2, v3, v4, _, v6⟩ := fromLeaf_spec '/' c dupOk items' root ra 1 t fr (by simp [items']) hwf'
-      (fun e => by
-        refine ⟨hslash e it0 (by simp) root (by rw [hb0]; simp), ?_⟩
+    obtain ⟨v1, v2, v3, v4, _, v6⟩ := fromLeaf_spec c c dupOk items' root ra 1 t fr (by simp [items']) hwf'
+      (fun _ => by
+        refine ⟨hroot.2, ?_⟩
         intro it hit x hx
         simp only [items', List.mem_map] at hit
         obtain ⟨y, hy, rfl⟩ := hit
-        exact hslash e y hy x hx) hm
+        exact ((hwf y hy).2.2.2 x hx).2) hm
     rw [hbr] at v2 v3 v4
     exact ⟨v1, v2, v3, v4, v6⟩
 
